@@ -202,7 +202,7 @@ def run(ctx):
     wn = np.arange(400, 900, 7)
     vn = 1.0 + (np.arange(wn.size) % 5) * 0.25
     for vu0 in [None] + FU:
-        for wdt in (np.float32, np.int32, np.int64, np.uint16, 'values-float16', 'values-float32'):
+        for wdt in (np.float32, np.int32, np.int64, np.uint16, 'values-float16', 'values-float32', 'values-complex64'):
             for path in [(t,) for t in targets if not (vu0 is None and t in FU)] + [('m', 'nm'), ('um', 'wlam' if vu0 else 'angstrom', 'nm')]:
                 if isinstance(wdt, str):
                     a = r.Spectrum(wn.astype(float), vn.astype(wdt.split('-')[1]), waveunit='nm', valueunit=vu0)      # (values exact in half precision)
@@ -215,7 +215,7 @@ def run(ctx):
                     a.to(*path)
                     b.to(*path)
                     ok = a.waveunit == b.waveunit and a.valueunit == b.valueunit and np.allclose(np.asarray(a.wave, dtype=float), b.wave, rtol=1e-12, atol=0) \
-                        and np.allclose(np.asarray(a.value, dtype=float), b.value, rtol=1e-12, atol=0)
+                        and np.allclose(np.asarray(a.value, dtype=complex), b.value, rtol=1e-12, atol=0)
                     err = None
                 except Exception as ex:
                     ok, err = False, repr(ex)[:160]
